@@ -39,6 +39,11 @@ def run(R, tier, seed, driver_ok):
         output_iter = min(output_iter, max_iter)
         params = dict(basis=basis, n_basis=nb, beta=float(rng.choice([1e-5, 1e-3, 0.05])), gamma=float(rng.choice([5e-3, 0.05, 1.0])),
                       batch_size=int(rng.choice([1, 5, 10, 16])), max_iter=max_iter, output_iter=output_iter, random_state=sd)
+        # a RandomState INSTANCE instead of an integer seed: one stream serves every draw of the fit, in the documented order
+        # (the basis is built first, the mini-batches of the optimisation are drawn after it)
+        instance = (not supervised) and bk == 'triplet_diffs' and rep % 3 != 0
+        if instance:
+            params['random_state'] = np.random.RandomState(sd)
         cap = {}
         o_cfbw = _BaseSCML._components_from_basis_weights
         o_cdd = _BaseSCML._compute_dist_diff
@@ -101,7 +106,20 @@ def run(R, tier, seed, driver_ok):
             R.violation('SCML/fullrank-shape', f'{nact} active bases ≥ d={d}: components_ shape {L.shape}, warning={warned}', case)
         # ---- replay
         nt = dd.shape[0]
-        ri = np.random.RandomState(sd).randint(low=0, high=nt, size=(max_iter, params['batch_size']))
+        rs2 = np.random.RandomState(sd)
+        if instance:
+            try:
+                e2 = SCML(**dict(params, random_state=rs2))
+                ti_, Xi_ = e2._to_index_points(T)
+                B2 = e2._generate_bases_dist_diff(ti_, Xi_)
+                B2 = B2[0] if isinstance(B2, tuple) else B2
+                if np.shape(B2) != Bm.shape or np.abs(np.asarray(B2) - Bm).max() > 1e-12:
+                    R.violation('SCML/random-state-instance/basis', 'with a RandomState instance the basis in use is not the one generated from the first draws of that stream', case)
+                R.count('random-state-instance: basis regenerated')
+            except (AttributeError, TypeError) as e:
+                R.count('random-state-instance: helpers unavailable'); instance = False
+                continue
+        ri = rs2.randint(low=0, high=nt, size=(max_iter, params['batch_size']))
         lines.append(f"scml_replay {nt} {dd.shape[1]} {max_iter} {params['batch_size']} {output_iter} {f2b(params['beta'])} {f2b(params['gamma'])} {bits(dd)} " + ' '.join(map(str, ri.ravel().tolist())))
         meta.append((w, dd, params, case))
     if driver_ok and lines:
